@@ -344,13 +344,13 @@ def ghost(r, F):
                         else:
                             tr["?" + k] = v
                     extra = {k: v for k, v in tr.items() if v != 0}
-                out.append((g, c, fl, extra, pops))
+                out.append((g, c, fl, extra, pops, site))
         return out
 
     inc = push.local_name(3)
     tests = overflow_tests(push)
     r.require(len(tests) == 1, push, "ghost push: one overflow test", "a single (weight + incoming ? capacity) loop test", "GhostQueue::push has %d overflow tests" % len(tests), ln=push.lo)
-    for (g, c, fl, extra, pops) in tests:
+    for (g, c, fl, extra, pops, _site) in tests:
         tab = tables.table(g, c, fl, pops)
         r.require(extra == {inc: Fraction(1)} and tab[:2] == ("no", "no") and tab[2] != "no", push, "ghost push: pop while weight + incoming > capacity",
                   "compared quantity: weight + %s - capacity; table (<,=,>) -> pop: %s" % (affine.pretty(extra) if extra else "0", tab),
@@ -358,7 +358,7 @@ def ghost(r, F):
                   "— the ghost queue then remembers more (or fewer) keys than the configured ghost ratio, which changes which re-inserted keys are routed to the main queue" % (affine.pretty(extra) if extra else "0", tab), ln=c.ln)
     tests = overflow_tests(upd)
     r.require(len(tests) == 1, upd, "ghost update: one overflow test", "a single (weight ? capacity) loop test", "GhostQueue::update has %d overflow tests" % len(tests), ln=upd.lo)
-    for (g, c, fl, extra, pops) in tests:
+    for (g, c, fl, extra, pops, _site) in tests:
         tab = tables.table(g, c, fl, pops)
         r.require(not extra and tab[:2] == ("no", "no") and tab[2] != "no", upd, "ghost update: pop while weight > capacity", "table (<,=,>) -> pop: %s" % (tab,),
                   "GhostQueue::update must shrink to the new capacity exactly (pop while weight > capacity); found `weight + (%s) ? capacity` -> %s" % (affine.pretty(extra) if extra else "0", tab), ln=c.ln)
@@ -373,7 +373,7 @@ def ghost(r, F):
             r.require(tab[1] == "no", host, "ghost loop stops on an empty queue", "table (w<0, w=0, w>0) -> pop: %s" % (tab,),
                       "the ghost queue's shrink loop keeps popping at weight == 0 (an entry heavier than the whole ghost capacity never fits): it never terminates", ln=c.ln)
     # the only early exit is a disabled ghost queue (capacity == 0): with any other capacity push records the key and update shrinks
-    for host, acts in ((push, [b.idx for b in push.calls_to(r"VecDeque::<T, A>::push_back$")]), (upd, [c.sw.idx for (g, c, fl, extra, pops) in overflow_tests(upd) if g is upd])):
+    for host, acts in ((push, [b.idx for b in push.calls_to(r"VecDeque::<T, A>::push_back$")]), (upd, [(c.sw.idx if site is None else site.idx) for (g, c, fl, extra, pops, site) in overflow_tests(upd)])):
         found = [(c, fl) for (c, fl) in tables.find_cmp(host, tables.role_field("capacity", G), tables.role_const(0), "comparison of the ghost capacity with 0") if c.op in ("Eq", "Ne")]
         for c, fl in found:
             tab = tables.table(host, c, fl, acts)
